@@ -288,7 +288,7 @@ var cfgNames = []string{"full-static", "full-quiet", "nup-static", "nup-quiet"}
 func genC03(o *Out, r *rand.Rand, thorough bool) {
 	n := 260
 	if thorough {
-		n = 6000
+		n = 2500
 	}
 	seeds := []int64{0, 1}
 	for _, s := range seeds {
@@ -389,7 +389,7 @@ func randomBound(r *rand.Rand) string {
 func genC13(o *Out, r *rand.Rand, thorough bool) {
 	n := 200
 	if thorough {
-		n = 8000
+		n = 2500
 	}
 	o.do(ztableLine(0))
 	// stalemates and mates under narrowed windows (the quiescence search must rate them exactly, also
@@ -485,7 +485,7 @@ func noRepeatLine(r *rand.Rand, maxPlies int) (string, []string, *board.Board) {
 func genC11(o *Out, r *rand.Rand, thorough bool) {
 	n := 220
 	if thorough {
-		n = 5000
+		n = 2000
 	}
 	o.do(ztableLine(0))
 	o.do(ztableLine(1))
@@ -550,7 +550,7 @@ func init() {
 func genC12(o *Out, r *rand.Rand, thorough bool) {
 	n := 40
 	if thorough {
-		n = 600
+		n = 150
 	}
 	o.do(ztableLine(0))
 	sizes := []int{0, 64, 1 << 12, 1 << 20}
@@ -601,7 +601,7 @@ func genC12(o *Out, r *rand.Rand, thorough bool) {
 		for k := 0; k < 10; k++ {
 			points = append(points, 1+r.Intn(total+1))
 		}
-		if thorough && total < 400 {
+		if thorough && total < 250 {
 			points = nil
 			for k := 1; k <= total+1; k++ {
 				points = append(points, k)
